@@ -293,6 +293,11 @@ func opVJSON(c Obj) J {
 			out["rejson"] = "same"
 		}
 	}
+	bkAnswer := "rejected"
+	if ok, _ := bk.(Obj)["ok"].(bool); ok {
+		re, _ := bk.(Obj)["re"].(string)
+		bkAnswer = "ok " + re
+	}
 	delete(bk.(Obj), "re")
 	out["equal"] = true
 	if g, has := bk.(Obj)["go"]; has {
@@ -306,11 +311,33 @@ func opVJSON(c Obj) J {
 		}
 		delete(bk.(Obj), "go")
 	}
+	// the same document, byte-level respelling: every string and key written with \uXXXX escapes, white space
+	// between all tokens.  It is the same JSON text for any reader (RFC 8259), so the decoder must give the same answer
+	escDiffers := []any{}
+	// "the same answer": both rejected, or both accepted and the library's own encoding of the two decoded objects is
+	// the same bytes (the wire form of a decoded set lists members in Go map order, so it cannot be compared)
+	answer := func(r J) string {
+		ro := r.(Obj)
+		if ok, _ := ro["ok"].(bool); !ok {
+			return "rejected"
+		}
+		re, _ := ro["re"].(string)
+		return "ok " + re
+	}
+	escCheck := func(name string, d J, plain string) {
+		var w bytes.Buffer
+		writeEscaped(d, &w)
+		if answer(back(w.Bytes())) != plain {
+			escDiffers = append(escDiffers, name)
+		}
+	}
+	escCheck("encoding", doc, bkAnswer)
 	spell := []any{}
 	addSpell := func(name string, d J) {
 		var w bytes.Buffer
 		fromTJSON(d, &w)
 		r := back(w.Bytes())
+		escCheck(name, d, answer(r))
 		delete(r.(Obj), "re")
 		delete(r.(Obj), "go")
 		if ok, _ := r.(Obj)["ok"].(bool); ok {
@@ -344,6 +371,7 @@ func opVJSON(c Obj) J {
 		addSpell("entity references implicit", Obj{"o": outm})
 	}
 	out["spell"] = spell
+	out["escdiffers"] = escDiffers
 	out["names"] = jsonNameTable(names...)
 	return out
 }
